@@ -260,6 +260,8 @@ class API:
             raise ConfigurationException(str(e), position=Position(file=path))
         except FileNotFoundError:
             raise FileNotFoundException(path)
+        except IsADirectoryError:
+            raise ConfigurationException("The configuration path is a directory, not a file", position=Position(file=path))
 
     class ConfiguredContext:
         def __init__(self, config: BaseModel, external_types_model: type[BaseExternalType],
